@@ -35,6 +35,16 @@ def Ctl.preTry : Ctl → Bool
   · split <;> rfl
   · rfl
   · rfl
+@[simp] theorem afterAliveAC_ctl (e : Env) (t : Tid) (k : K) (b : Bool) : (afterAliveAC e t k b).ctl = e.ctl := by
+  unfold afterAliveAC
+  simp only
+  repeat' split
+  all_goals simp [setCall]
+@[simp] theorem afterAliveAC_outs (e : Env) (t : Tid) (k : K) (b : Bool) : (afterAliveAC e t k b).outs = e.outs := by
+  unfold afterAliveAC
+  simp only
+  repeat' split
+  all_goals simp [setCall]
 @[simp] theorem finishAlive_ctl (e : Env) (t : Tid) (w : Wid) (a b : Time) : (finishAlive e t w a b).ctl = e.ctl := by
   unfold finishAlive
   split
